@@ -55,6 +55,17 @@ pub fn apps() -> Vec<AppDef> {
         s.output_plugins = vec![json!({"type": "summary"}), json!({"type": "traversal", "route": route, "tree": tree, "geometry_input_file": "$DIR/geometries.txt"})];
         out.push(AppDef { name, spec: s, bases: vec![vq.clone(), json!({"origin_vertex": 0})], fields: vec!["origin_vertex", "destination_vertex"] });
     }
+    // the uuid plugin ahead of the route renderer (it looks the origin and destination ids up in its own table, whatever the
+    // search made of them); every base query has a destination, the plugin wants one
+    for (name, plugins) in [
+        ("plain_vertex_uuid_first", vec![json!({"type": "summary"}), json!({"type": "uuid", "uuid_input_file": "$DIR/uuids.txt"}), json!({"type": "traversal", "route": "edge_id", "geometry_input_file": "$DIR/geometries.txt"})]),
+        ("plain_vertex_uuid_tree_only", vec![json!({"type": "traversal", "tree": "edge_id", "geometry_input_file": "$DIR/geometries.txt"}), json!({"type": "uuid", "uuid_input_file": "$DIR/uuids.txt"})]),
+    ] {
+        let mut s = AppSpec::simple(net.clone());
+        s.uuids = Some((0..net.n).map(|v| format!("uuid-{}", v)).collect());
+        s.output_plugins = plugins;
+        out.push(AppDef { name, spec: s, bases: vec![vq.clone()], fields: vec!["origin_vertex", "destination_vertex"] });
+    }
     // speed table model: state features can be overridden from the query
     let mut s = AppSpec::simple(net.clone());
     s.speed = Some((speeds.clone(), SpeedUnit::KilometersPerHour, Some(DistanceUnit::Meters), Some(TimeUnit::Seconds)));
@@ -265,6 +276,11 @@ fn special_queries(def: &AppDef) -> Vec<(String, Value, bool)> {
         v.push(("origin_one_past_end".into(), json!({"origin_vertex": n, "destination_vertex": 4}), true));
         v.push(("destination_one_past_end".into(), json!({"origin_vertex": 0, "destination_vertex": n}), true));
         v.push(("origin_equals_destination".into(), json!({"origin_vertex": 3, "destination_vertex": 3}), true));
+        // identical ids at both ends of the id range and beyond it (the search answers origin = destination before it looks
+        // either of them up)
+        for (i, x) in [0usize, n - 1, n, n + 1, 1000].into_iter().enumerate() {
+            v.push((format!("origin_equals_destination_at_{}", ["first", "last", "one_past_end", "two_past_end", "far_past_end"][i]), json!({"origin_vertex": x, "destination_vertex": x}), true));
+        }
         v.push(("destination_unreachable".into(), json!({"origin_vertex": 4, "destination_vertex": 0}), true));
         v.push(("zero_weights".into(), json!({"origin_vertex": 0, "destination_vertex": 4, "weights": {"distance": 0.0}}), true));
         v.push(("unknown_weight_name".into(), json!({"origin_vertex": 0, "destination_vertex": 4, "weights": {"bogus": 1.0}}), false));
@@ -302,7 +318,7 @@ fn special_queries(def: &AppDef) -> Vec<(String, Value, bool)> {
 /// fields without which (or with an ill-typed value of which) the query cannot be answered
 fn required_field(def: &AppDef, field: &str) -> bool {
     match def.name {
-        "plain_vertex" | "plain_vertex_wkt" | "plain_vertex_wkb" | "plain_vertex_geo_json" | "plain_vertex_json" | "speed_vertex" | "grid_search" | "inject_overwrite" | "inject_no_overwrite" | "ksp_single_via" | "yens_k1" | "energy_bev" => field == "origin_vertex",
+        "plain_vertex" | "plain_vertex_wkt" | "plain_vertex_wkb" | "plain_vertex_geo_json" | "plain_vertex_json" | "plain_vertex_uuid_first" | "plain_vertex_uuid_tree_only" | "speed_vertex" | "grid_search" | "inject_overwrite" | "inject_no_overwrite" | "ksp_single_via" | "yens_k1" | "energy_bev" => field == "origin_vertex",
         "vertex_rtree" | "edge_rtree" | "load_balancer_haversine" => field == "origin_x" || field == "origin_y",
         _ => false,
     }
@@ -421,6 +437,9 @@ fn site(c: &Case) -> String {
     let w = c.what.split('@').next().unwrap_or("");
     let kind = if w.starts_with("non_object_query") {
         "non_object_query".to_string()
+    } else if w == "origin_equals_destination_at_first" || w == "origin_equals_destination_at_last" {
+        // identical ids inside the network: one situation wherever in the id range they lie
+        "origin_equals_destination".to_string()
     } else if w.starts_with("degenerate_grid") || w.starts_with("coordinates_out_of_range") {
         w.to_string()
     } else if w.contains(':') {
